@@ -8,6 +8,7 @@ TC09d  the per-axis tests of both bounds checks (`map_reference_to_indices`,
        `VolumeToVolumeTransformer.__call__`)                                   -> Gen.refBoundsAxis, Gen.v2vBoundsAxis
 TC09e  `match_geometry`, the refusals before the alignment loops (FoR, CS)     -> Gen.mgHead
 TC09g  dtype decisions of `VolumeToVolumeTransformer.__call__`                 -> Gen.v2vInputIsInt, Gen.v2vKeepInputType, Gen.v2vCastBack
+TC09h  writes of the entry points on their own object (purity)                 -> Gen.v2vCallSelfWrites, Gen.refIdxSelfWrites, …
 TC09f  structural fingerprint: ordered top-level operations (with guards) of `match_geometry`, of the
        transformer and of `map_reference_to_indices`                           -> Gen.mgSteps, Gen.v2vSteps, Gen.refIdxSteps
 
@@ -438,9 +439,13 @@ def build_order(tree):
     ib = [s for s in strip_doc(init.body)]
     want = {'self._affine': 'volume_to.inverse_affine @ volume_from.affine', 'self._output_shape': 'volume_to.spatial_shape',
             'self._round_output': 'round_output', 'self._check_bounds': 'check_bounds'}
+    have = {}
     for st in ib:
-        if not (isinstance(st, ast.Assign) and _txt(st.targets[0]) in want and _norm(_txt(st.value)) == _norm(want[_txt(st.targets[0])])):
-            raise Unsupported('VolumeToVolumeTransformer.__init__: unexpected statement ' + _txt(st)[:80])
+        if isinstance(st, ast.Assign) and len(st.targets) == 1:
+            have[_txt(st.targets[0])] = _norm(_txt(st.value))
+    for k, v in want.items():
+        if have.get(k) != _norm(v):
+            raise Unsupported(f'VolumeToVolumeTransformer.__init__: {k} is not set to {v}')
     call = find_func(tree, 'VolumeToVolumeTransformer.__call__')
     ops = ['product']
     for st in strip_doc(call.body):
@@ -569,7 +574,80 @@ def build_v2v_dtype(tree):
     return t1 + '\n\n' + t2 + '\n\n' + t3, span_sha([isint[0], rb])
 
 
+# ------------------------------------------------------------------------------------------ TC09h
+_MUTATORS = {'fill', 'resize', 'sort', 'put', 'itemset', 'setfield', 'setflags', 'partition', 'byteswap', 'append', 'extend',
+             'insert', 'remove', 'update', 'clear', 'pop', 'popitem', 'setdefault', 'add', 'discard', '__setitem__',
+             '__setattr__', '__delitem__'}
+
+
+def _rooted_at_self(node):
+    while isinstance(node, (ast.Attribute, ast.Subscript, ast.Starred)):
+        node = node.value
+    return isinstance(node, ast.Name) and node.id == 'self'
+
+
+def _self_writes(fn):
+    """what a method writes on its own object: assignment / augmented assignment / deletion targets rooted at `self`
+    (attributes and elements of attributes), in-place mutator calls and `out=` arguments rooted at `self`"""
+    out = []
+
+    def targets(t):
+        if isinstance(t, (ast.Tuple, ast.List)):
+            for e in t.elts:
+                yield from targets(e)
+        else:
+            yield t
+    for node in ast.walk(fn):
+        tg = []
+        if isinstance(node, ast.Assign):
+            tg = [x for t in node.targets for x in targets(t)]
+        elif isinstance(node, (ast.AugAssign, ast.AnnAssign)):
+            tg = list(targets(node.target)) if not (isinstance(node, ast.AnnAssign) and node.value is None) else []
+        elif isinstance(node, ast.Delete):
+            tg = [x for t in node.targets for x in targets(t)]
+        elif isinstance(node, ast.NamedExpr):
+            tg = [node.target]
+        elif isinstance(node, (ast.For, ast.AsyncFor)):
+            tg = list(targets(node.target))
+        elif isinstance(node, (ast.With, ast.AsyncWith)):
+            tg = [x for it in node.items if it.optional_vars is not None for x in targets(it.optional_vars)]
+        for t in tg:
+            if isinstance(t, (ast.Attribute, ast.Subscript, ast.Starred)) and _rooted_at_self(t):
+                out.append(_txt(t))
+        if isinstance(node, ast.Call):
+            f = node.func
+            if isinstance(f, ast.Attribute) and f.attr in _MUTATORS and _rooted_at_self(f.value):
+                out.append(_txt(f) + '()')
+            if isinstance(f, ast.Name) and f.id in ('setattr', 'delattr') and node.args and _rooted_at_self(node.args[0]):
+                out.append(_txt(node)[:60])
+            for kw in node.keywords:
+                if kw.arg == 'out' and _rooted_at_self(kw.value):
+                    out.append('out=' + _txt(kw.value))
+            if _txt(f) in ('np.copyto', 'numpy.copyto', 'np.put', 'np.place', 'np.putmask') and node.args \
+                    and _rooted_at_self(node.args[0]):
+                out.append(_txt(f) + '(' + _txt(node.args[0]) + ', …)')
+    return out
+
+
+def build_purity(tree):
+    """which of the property's entry points write on their own object (they should not: the model is a function of the
+    arguments)"""
+    fns = {'v2vCallSelfWrites': 'VolumeToVolumeTransformer.__call__', 'refIdxSelfWrites': '_VolumeBase.map_reference_to_indices',
+           'idxRefSelfWrites': '_VolumeBase.map_indices_to_reference', 'geqSelfWrites': '_VolumeBase.geometry_equal',
+           'mgSelfWrites': '_VolumeBase.match_geometry'}
+    texts, shas = [], ''
+    for lean, qual in fns.items():
+        fn = find_func(tree, qual)
+        w = _self_writes(fn)
+        items = ', '.join('"' + x.replace('\\', '\\\\').replace('"', '\\"') + '"' for x in w)
+        texts.append(f"/-- writes of `{qual}` on its own object (`self.x = …`, `self.x[…] = …`, `self.x += …`, `del self.x`, in-place "
+                     f"mutators and `out=` arguments rooted at `self`), extracted from the AST -/\ndef {lean} : List String := [{items}]")
+        shas += hashlib.sha256('|'.join(w).encode() + qual.encode()).hexdigest()[:10]
+    return '\n\n'.join(texts), shas
+
+
 TARGETS = {
+    'TC09h': {'file': 'volume.py', 'build': build_purity},
     'TC09g': {'file': 'volume.py', 'build': build_v2v_dtype},
     'TC09f': {'file': 'volume.py', 'build': build_order, 'imports': ['HdVerif.Model.MatchOps']},
     'TC09e': {'file': 'volume.py', 'build': build_matchhead},
